@@ -92,6 +92,67 @@ class Ctx:
         self.notes.append(s)
 
 
+def thorough_extra(prop, module, ctx):
+    """thorough tier = the same rules over more programs and configurations:
+    (a) the second assert configuration (-UNDEBUG): every rule instance must hold there too;
+    (b) sensitivity: every stored property-breaking variant of /repo (independent seeds in seeded/, own mutants in
+        mutants/) is applied to a scratch copy, facts are re-extracted and the rules re-run - the variant must be
+        reported. Sensitivity results are evidence, never verdicts on /repo."""
+    import glob
+    import shutil
+    import subprocess
+    import tempfile
+    # (a)
+    if not getattr(module, "SKIP_ASSERT_CONFIG", False):
+        try:
+            f2 = F.extract(ndebug=False)
+            c2 = Ctx(prop, "thorough", f2)
+            module.run(c2)
+            for o in c2.obs:
+                o.instance = o.instance + " [-UNDEBUG]"
+                o.key = o.key + " [-UNDEBUG]"
+                ctx.obs.append(o)
+            for r, t in c2.rules.items():
+                ctx.rules.setdefault(r, t)
+            ctx.extra["assert_configuration"] = {"instances": len(c2.obs), "holding": sum(1 for o in c2.obs if o.ok)}
+        except AnalysisBroken as e:
+            # the asserting configuration is not the built one: an idiom the recognisers do not know there is recorded, not a verdict
+            ctx.extra["assert_configuration"] = {"not_analysable": str(e)[:300]}
+    # (b)
+    variants = sorted(glob.glob(os.path.join(VERIF, "seeded", prop + "-*", "patch.diff")) + glob.glob(os.path.join(VERIF, "mutants", prop, "*.diff")))
+    results = []
+    for v in variants:
+        label = os.path.relpath(v, VERIF)
+        scratch = tempfile.mkdtemp(prefix="rtosc-variant-")
+        try:
+            for sub in ("src", "include", "cmake", "test", "example", "doc", "completions"):
+                if os.path.isdir(os.path.join(F.REPO, sub)):
+                    shutil.copytree(os.path.join(F.REPO, sub), os.path.join(scratch, sub))
+            for fn in os.listdir(F.REPO):
+                p = os.path.join(F.REPO, fn)
+                if os.path.isfile(p):
+                    shutil.copy(p, scratch)
+            r = subprocess.run(["git", "apply", "--unsafe-paths", "--directory=" + scratch, v], capture_output=True, text=True, cwd="/")
+            if r.returncode != 0:
+                r = subprocess.run(["patch", "-p1", "-s", "-d", scratch, "-i", v], capture_output=True, text=True)
+            if r.returncode != 0:
+                results.append({"variant": label, "outcome": "skipped (patch no longer applies)"})
+                continue
+            try:
+                fv = F.extract(ndebug=True, repo=scratch)
+                cv = Ctx(prop, "thorough", fv)
+                module.run(cv)
+                bad = [o for o in cv.obs if not o.ok]
+                results.append({"variant": label, "outcome": "detected" if bad else "MISSED",
+                                "reported": ["%s %s" % (o.rule, o.instance) for o in bad[:3]]})
+            except AnalysisBroken as e:
+                results.append({"variant": label, "outcome": "no verdict (analysis broken)", "reason": str(e)[:200]})
+        finally:
+            shutil.rmtree(scratch, ignore_errors=True)
+    ctx.extra["sensitivity"] = {"variants": len(results), "detected": sum(1 for r in results if r["outcome"] == "detected"),
+                                "missed": [r["variant"] for r in results if r["outcome"] == "MISSED"], "results": results}
+
+
 def load_known():
     if not os.path.exists(KNOWN):
         return []
@@ -118,10 +179,10 @@ def run_property(prop, module, tier, replay=None):
         facts = F.extract(ndebug=True)
         ctx = Ctx(prop, tier, facts)
         module.run(ctx)
-        if tier == "thorough" and hasattr(module, "run_thorough"):
-            module.run_thorough(ctx)
         if not ctx.obs:
             raise AnalysisBroken("no rule instance was analysed")
+        if tier == "thorough":
+            thorough_extra(prop, module, ctx)
     except AnalysisBroken as e:
         msg = "ANALYSIS-BROKEN property=%s: %s" % (prop, e)
         print(msg)
